@@ -6,6 +6,8 @@ PCIRC = "hippolyzer/lib/proxy/circuit.py"
 BCIRC = "hippolyzer/lib/base/message/circuit.py"
 MSG = "hippolyzer/lib/base/message/message.py"
 MH = "hippolyzer/lib/base/message/message_handler.py"
+RLV = "hippolyzer/lib/client/rlv.py"
+SCHED = "hippolyzer/lib/proxy/task_scheduler.py"
 
 _HOOK_TAIL = ("            return hook_func(*args, **kwargs)\n"
               "        except:\n"
@@ -329,6 +331,43 @@ VARIANTS = [
      "edits": [{"file": ADDONS, "old": "                all_cmds_handled = bool(commands)\n", "new": "                all_cmds_handled = True\n"},
                {"file": ADDONS, "old": "                if all_cmds_handled:\n                    return True\n",
                 "new": "                if commands and all_cmds_handled:\n                    return True\n"}]},
+    # ------------------------------------------------------------------ R10
+    {"name": "R10 RLV sniffing calls startswith on undecoded chat again (D29 reverted)", "file": RLV, "expect": "C07.R10",
+     "old": "chat_type == ChatType.OWNER and isinstance(chat, str) and chat.startswith(\"@\")",
+     "new": "chat_type == ChatType.OWNER and chat.startswith(\"@\")"},
+    {"name": "P R10 isinstance test as a guard clause", "file": RLV, "expect": "silent",
+     "old": "        return chat_type == ChatType.OWNER and isinstance(chat, str) and chat.startswith(\"@\")\n",
+     "new": "        if not isinstance(chat, str):\n            return False\n"
+            "        return chat_type == ChatType.OWNER and chat.startswith(\"@\")\n"},
+    {"name": "R10 RLV command parsed with an unchecked re.match", "expect": "C07.R10",
+     "edits": [{"file": RLV, "old": "            options, _, param = command_str.partition(\"=\")\n"
+                                    "            behaviour, _, options = options.partition(\":\")\n",
+                "new": "            found = re.match(r\"([^:=]+)(?::([^=]*))?=(\\w*)\", command_str)\n"
+                       "            behaviour, options, param = found.group(1), found.group(2) or \"\", found.group(3)\n"},
+               {"file": RLV, "old": "from typing import NamedTuple, List, Sequence\n",
+                "new": "import re\nfrom typing import NamedTuple, List, Sequence\n"}]},
+    {"name": "P R10 RLV command parsed with re.match and a None check", "expect": "silent",
+     "edits": [{"file": RLV, "old": "            options, _, param = command_str.partition(\"=\")\n"
+                                    "            behaviour, _, options = options.partition(\":\")\n",
+                "new": "            found = re.match(r\"([^:=]+)(?::([^=]*))?=(\\w*)\", command_str)\n"
+                       "            if found is None:\n                continue\n"
+                       "            behaviour, options, param = found.group(1), found.group(2) or \"\", found.group(3)\n"},
+               {"file": RLV, "old": "from typing import NamedTuple, List, Sequence\n",
+                "new": "import re\nfrom typing import NamedTuple, List, Sequence\n"}]},
+    {"name": "R10 scheduler truth-tests the creator proxy", "file": SCHED, "expect": "C07.R10",
+     "old": "            if task_data.scope & lifetime_mask:\n", "new": "            if task_data.creator and task_data.scope & lifetime_mask:\n"},
+    {"name": "P R10 scheduler compares the creator proxy with None", "file": SCHED, "expect": "silent",
+     "old": "            if task_data.scope & lifetime_mask:\n",
+     "new": "            if task_data.creator is not None and task_data.scope & lifetime_mask:\n"},
+    # ------------------------------------------------------------------ P2 loop-closure (structlint)
+    {"name": "P2 async wrapper closes over the loop variables again (5f8d112 reverted)", "file": EVENTS, "expect": "C07.P2",
+     "old": '                async def _run_handler_wrapper(handler=handler, inner_args=inner_args, kwargs=kwargs):\n', "new": "                async def _run_handler_wrapper():\n"},
+    {"name": "P P2 loop values bound with functools.partial", "expect": "silent",
+     "edits": [{"file": EVENTS, "old": '                async def _run_handler_wrapper(handler=handler, inner_args=inner_args, kwargs=kwargs):\n', "new": "                async def _run_handler_wrapper(handler, inner_args, kwargs):\n"},
+               {"file": EVENTS, "old": "                create_logged_task(_run_handler_wrapper(), self.name, LOG)\n",
+                "new": "                bound = functools.partial(_run_handler_wrapper, handler, inner_args, kwargs)\n"
+                       "                create_logged_task(bound(), self.name, LOG)\n"},
+               {"file": EVENTS, "old": "import asyncio\nimport logging\n", "new": "import asyncio\nimport functools\nimport logging\n"}]},
     # ------------------------------------------------------------------ documented limits
     {"name": "R4 queued original dropped only when reliable", "file": LLUDP, "expect": "C07.R4",
      "old": "        if message.queued:\n            region.circuit.drop_message(message)\n",
